@@ -1,5 +1,470 @@
-//! Conformance harness for specification-growth module g05 (see /verif/DESIGN.md 12.6).
+//! Conformance harness for specification-growth module G05 (the `read`
+//! built-in), see spec/ReadBuiltin.tla.
+//!
+//! `yv-g05 replay --in GEN.ndjson --out MISMATCHES.ndjson --sample SAMPLE.ndjson [--threads T]`
+//!     spec -> impl: every line of GEN is an input printed by Gen_ReadBuiltin
+//!     with the fan of cases (raw mode x IFS x variable operands) and what the
+//!     specification demands of each.  Every case is run by the real shell on
+//!     the simulated OS with the input on descriptor 0 as a regular file, as a
+//!     pipe filled in chunks and (where the input can be one) as a
+//!     here-document; status, variables and the rest of descriptor 0 are
+//!     compared.  Every 211th observation is also written to SAMPLE in the
+//!     record format of `random`, for TLC to judge (cross-check of the
+//!     comparison done here).
+//! `yv-g05 random --n N --out TRACE.ndjson [--threads T]`
+//!     impl -> spec: N seeded random scenarios (longer inputs, more IFS values,
+//!     delimiters, up to five variables); observations for Trace_ReadBuiltin.
+//! `yv-g05 one --in SCEN.json --out TRACE.ndjson [--show]`
+//!     one scenario, same record as `random`.
+mod run;
+
+use rand::rngs::StdRng;
+use rand::{Rng, SeedableRng};
+use run::{Case, Feed, NVARS, OLD, Obs};
+use serde_json::{Value, json};
+use std::collections::BTreeMap;
+use std::io::{BufRead, Write};
+use std::sync::Mutex;
+use yvcommon::util::{self, opt, opt_usize};
+
+fn strs(v: &Value) -> Vec<String> {
+    v.as_array().map(|a| a.iter().map(|x| x.as_str().unwrap_or("").to_string()).collect()).unwrap_or_default()
+}
+
+#[derive(Default)]
+struct Stats {
+    lines: usize,
+    cases: usize,
+    runs: usize,
+    mismatches: usize,
+    nontrivial: usize,
+    by_class: BTreeMap<String, usize>,
+    by_fam: BTreeMap<String, usize>,
+    by_feed: BTreeMap<String, usize>,
+    features: BTreeMap<String, usize>,
+}
+
+impl Stats {
+    fn merge(&mut self, o: Stats) {
+        self.lines += o.lines;
+        self.cases += o.cases;
+        self.runs += o.runs;
+        self.mismatches += o.mismatches;
+        self.nontrivial += o.nontrivial;
+        for (a, b) in [
+            (&mut self.by_class, o.by_class),
+            (&mut self.by_fam, o.by_fam),
+            (&mut self.by_feed, o.by_feed),
+            (&mut self.features, o.features),
+        ] {
+            for (k, v) in b {
+                *a.entry(k).or_default() += v;
+            }
+        }
+    }
+    fn json(&self) -> Value {
+        json!({"lines": self.lines, "cases": self.cases, "shell_runs": self.runs, "mismatches": self.mismatches,
+               "nontrivial": self.nontrivial, "by_class": self.by_class, "by_family": self.by_fam,
+               "by_feed": self.by_feed, "features": self.features})
+    }
+}
+
+fn status_ok(st: &str, s: i32) -> bool {
+    match st {
+        "0" => s == 0,
+        "1" => s == 1,
+        "E" => (2..=255).contains(&s),
+        _ => (0..=255).contains(&s),
+    }
+}
+
+/// The comparison ReadBuiltin!Conforms, on what Gen_ReadBuiltin printed.
+fn conforms(e: &Value, vk: &str, o: &Obs) -> &'static str {
+    let n = vk.chars().count();
+    let class = e["c"].as_str().unwrap_or("");
+    let operand = |i: usize| i < n && vk.as_bytes()[i] != b'b';
+    if !o.done {
+        return "outcome";
+    }
+    if !status_ok(e["s"].as_str().unwrap_or(""), o.st) {
+        return "status";
+    }
+    if !(o.used >= e["lo"].as_i64().unwrap_or(0) && o.used <= e["hi"].as_i64().unwrap_or(-1)) || (o.mid && class != "open") {
+        return "consumed";
+    }
+    if (0..NVARS).any(|i| !operand(i) && !(o.set[i] && o.vals[i] == OLD)) {
+        return "other-variables";
+    }
+    if class == "ok" {
+        if (0..n).any(|i| !o.set[i]) {
+            return "unset";
+        }
+        let got: Vec<String> = o.vals[..n].to_vec();
+        if !e["o"].as_array().map(|a| a.iter().any(|t| strs(t) == got)).unwrap_or(false) {
+            return "values";
+        }
+    }
+    if class == "ronly" && (0..n).any(|i| vk.as_bytes()[i] == b'r' && !(o.set[i] && o.vals[i] == OLD)) {
+        return "readonly-changed";
+    }
+    "ok"
+}
+
+fn ifs_of(table: &Value, idx: usize) -> Option<String> {
+    let e = &table[idx - 1];
+    if e["set"].as_bool().unwrap_or(false) { Some(e["v"].as_str().unwrap_or("").to_string()) } else { None }
+}
+
+fn ifs_json(ifs: &Option<String>) -> Value {
+    json!({"set": ifs.is_some(), "v": ifs.clone().unwrap_or_default()})
+}
+
+fn obs_json(vk: &str, o: &Obs) -> Value {
+    let n = vk.chars().count();
+    let operand = |i: usize| i < n && vk.as_bytes()[i] != b'b';
+    let oth = (0..NVARS).all(|i| operand(i) || (o.set.get(i) == Some(&true) && o.vals[i] == OLD));
+    json!({"done": o.done, "st": o.st, "vals": o.vals[..n.min(o.vals.len())], "set": o.set[..n.min(o.set.len())],
+           "pre": OLD, "oth": oth, "used": o.used, "mid": o.mid})
+}
+
+fn record(c: &Case, toks: &[String], o: &Obs) -> Value {
+    json!({"d": c.d, "raw": c.raw, "ifs": ifs_json(&c.ifs), "k": c.vk, "inp": toks, "feed": c.feed.name(),
+           "obs": obs_json(&c.vk, o)})
+}
+
+fn hash(toks: &[String], salt: u64) -> u64 {
+    let mut h: u64 = 0xcbf2_9ce4_8422_2325 ^ salt.wrapping_mul(0x9e37_79b9_7f4a_7c15);
+    for t in toks {
+        for b in t.bytes() {
+            h = (h ^ b as u64).wrapping_mul(0x1000_0000_01b3);
+        }
+        h = (h ^ 0xff).wrapping_mul(0x1000_0000_01b3);
+    }
+    h
+}
+
+const CHUNKS: [usize; 4] = [1, 0, 2, 3];
+
+/// spec -> impl for one line of Gen_ReadBuiltin.
+fn replay_line(g: &Value, st: &mut Stats, sample: &mut Vec<Value>) -> Vec<Value> {
+    let fam = g["fam"].as_str().unwrap().to_string();
+    let d = g["d"].as_str().unwrap().to_string();
+    let toks = strs(&g["inp"]);
+    let exps = g["cases"].as_array().unwrap();
+    let h = hash(&toks, util::seed());
+    let here = run::here_ok(&toks);
+    st.lines += 1;
+    *st.by_fam.entry(fam.clone()).or_default() += 1;
+
+    // the batch: every case with every feed
+    let mut cases: Vec<Case> = Vec::new();
+    let mut which: Vec<usize> = Vec::new();
+    for (j, e) in exps.iter().enumerate() {
+        let base = Case {
+            raw: e["r"].as_bool().unwrap(),
+            d: d.clone(),
+            ifs: ifs_of(&g["ifs"], e["f"].as_u64().unwrap() as usize),
+            vk: e["k"].as_str().unwrap().to_string(),
+            feed: Feed::File,
+        };
+        let mut feeds = if fam == "noin" {
+            vec![Feed::Closed]
+        } else {
+            vec![Feed::File, Feed::Pipe(CHUNKS[((h as usize) + j) % CHUNKS.len()])]
+        };
+        if here && fam != "noin" {
+            feeds.push(Feed::Here);
+        }
+        for f in feeds {
+            cases.push(Case { feed: f, ..base.clone() });
+            which.push(j);
+        }
+    }
+    let obs = run::run_cases(&cases, &toks, &mut st.runs);
+    let mut out = Vec::new();
+    let mut reported = vec![false; exps.len()];
+    for (i, o) in obs.iter().enumerate() {
+        let e = &exps[which[i]];
+        let c = &cases[i];
+        st.cases += 1;
+        let class = e["c"].as_str().unwrap_or("");
+        *st.by_class.entry(class.to_string()).or_default() += 1;
+        *st.by_feed.entry(c.feed.name()).or_default() += 1;
+        if c.feed == Feed::File {
+            for t in strs(&e["t"]) {
+                *st.features.entry(format!("scan/{t}")).or_default() += 1;
+            }
+            if class == "ok" {
+                let n = c.vk.len() as u64;
+                let m = e["m"].as_u64().unwrap_or(0);
+                let rel = if m < n { "fields<vars" } else if m == n { "fields=vars" } else { "fields>vars" };
+                *st.features.entry(format!("assign/{rel}")).or_default() += 1;
+                *st.features.entry(format!("status/{}", e["s"].as_str().unwrap_or(""))).or_default() += 1;
+                if e["o"].as_array().map(|a| a.len() > 1).unwrap_or(false) {
+                    *st.features.entry("assign/two-allowed".into()).or_default() += 1;
+                }
+                if c.raw {
+                    *st.features.entry("opt/-r".into()).or_default() += 1;
+                }
+                if c.d != "none" {
+                    *st.features.entry("opt/-d".into()).or_default() += 1;
+                }
+            }
+        }
+        if class == "ok" && !toks.is_empty() {
+            st.nontrivial += 1;
+        }
+        if (h as usize).wrapping_add(i * 7919) % 211 == 0 {
+            sample.push(record(c, &toks, o));
+        }
+        let v = conforms(e, &c.vk, o);
+        if v != "ok" {
+            st.mismatches += 1;
+            if reported[which[i]] {
+                continue;
+            }
+            reported[which[i]] = true;
+            let key = json!({"dir": "spec->impl", "symptom": v, "d": c.d, "raw": c.raw,
+                             "ifs": c.ifs.clone().unwrap_or_else(|| "<unset>".into()), "vars": c.vk,
+                             "inp": toks.join("|")});
+            let detail = format!(
+                "read: {v} differ from what ReadBuiltin.tla allows (feed {}): class {class}, expected status {} values {} consumed {}..{}; observed {} status {} values {:?} set {:?} consumed {} left {:?}; command: {}",
+                c.feed.name(),
+                e["s"],
+                e["o"],
+                e["lo"],
+                e["hi"],
+                o.outcome,
+                o.st,
+                o.vals,
+                o.set,
+                o.used,
+                String::from_utf8_lossy(&o.rest),
+                run::case_command(c, 0, &String::from_utf8_lossy(&run::input_bytes(&toks).0)),
+            );
+            out.push(json!({"key": key, "detail": detail, "rec": record(c, &toks, o)}));
+        }
+    }
+    out
+}
+
+// ---------------------------------------------------------------------------
+// random scenarios
+// ---------------------------------------------------------------------------
+
+struct Scen {
+    case: Case,
+    toks: Vec<String>,
+}
+
+fn pick<'a, R: Rng>(rng: &mut R, items: &[(&'a str, u32)]) -> &'a str {
+    let total: u32 = items.iter().map(|x| x.1).sum();
+    let mut r = rng.gen_range(0..total);
+    for (s, w) in items {
+        if r < *w {
+            return s;
+        }
+        r -= w;
+    }
+    items[0].0
+}
+
+fn random_scen(rng: &mut StdRng) -> Scen {
+    let d = pick(rng, &[("none", 50), (":", 12), ("", 10), ("\\", 5), (" ", 5), ("a", 5), ("\n", 5), ("W2", 1), ("ab", 1)]);
+    let raw = rng.gen_range(0..10) < 4;
+    let ifs = match rng.gen_range(0..10) {
+        0 | 1 => None,
+        2 => Some(String::new()),
+        _ => {
+            let n = rng.gen_range(1..=3);
+            let mut s = String::new();
+            for _ in 0..n {
+                let c = pick(rng, &[(" ", 4), ("\t", 2), ("\n", 2), (":", 4), ("-", 2), ("\\", 2), ("a", 1)]);
+                if !s.contains(c) {
+                    s.push_str(c);
+                }
+            }
+            Some(s)
+        }
+    };
+    let vk: String = match rng.gen_range(0..40) {
+        0 => String::new(),
+        1 | 2 => {
+            let n = rng.gen_range(1..=3);
+            (0..n).map(|_| *["o", "r", "b"].get(rng.gen_range(0..3)).unwrap()).collect()
+        }
+        _ => "o".repeat(rng.gen_range(1..=NVARS)),
+    };
+    let odd = rng.gen_range(0..100) < 4; // NUL / ill-formed bytes allowed
+    let len = match rng.gen_range(0..10) {
+        0 => rng.gen_range(0..4),
+        1..=6 => rng.gen_range(4..14),
+        _ => rng.gen_range(14..28),
+    };
+    let mut toks = Vec::new();
+    for _ in 0..len {
+        let t = pick(
+            rng,
+            &[("a", 10), ("b", 6), ("c", 3), ("x", 2), (" ", 12), ("\t", 3), (":", 8), ("-", 3), ("\\", 12), ("\n", if d == "none" { 4 } else { 8 }),
+              ("W2", 3), ("W3", 2), ("NUL", if odd || d.is_empty() { 4 } else { 0 }), ("BAD", if odd { 2 } else { 0 }),
+              ("CUT", if odd { 2 } else { 0 })],
+        );
+        toks.push(t.to_string());
+    }
+    if rng.gen_range(0..3) > 0 && d == "none" {
+        toks.push("\n".into());
+    }
+    let feed = match rng.gen_range(0..20) {
+        0..=6 => Feed::File,
+        7..=15 => Feed::Pipe(*[0usize, 1, 1, 2, 3, 5].get(rng.gen_range(0..6)).unwrap()),
+        19 if rng.gen_range(0..8) == 0 => Feed::Closed,
+        _ => {
+            if run::here_ok(&toks) {
+                Feed::Here
+            } else {
+                Feed::File
+            }
+        }
+    };
+    Scen { case: Case { raw, d: d.to_string(), ifs, vk, feed }, toks }
+}
+
+fn record_of(sc: &Scen, st: &mut Stats) -> Value {
+    let obs = run::run_cases(std::slice::from_ref(&sc.case), &sc.toks, &mut st.runs);
+    st.cases += 1;
+    *st.by_feed.entry(sc.case.feed.name()).or_default() += 1;
+    record(&sc.case, &sc.toks, &obs[0])
+}
+
+fn scen_from_json(v: &Value) -> Scen {
+    let ifs = if v["ifs"]["set"].as_bool().unwrap_or(false) { Some(v["ifs"]["v"].as_str().unwrap_or("").to_string()) } else { None };
+    Scen {
+        case: Case {
+            raw: v["raw"].as_bool().unwrap_or(false),
+            d: v["d"].as_str().unwrap_or("none").to_string(),
+            ifs,
+            vk: v["k"].as_str().unwrap_or("o").to_string(),
+            feed: Feed::parse(v["feed"].as_str().unwrap_or("file")),
+        },
+        toks: strs(&v["inp"]),
+    }
+}
+
+// ---------------------------------------------------------------------------
+
+fn open_out_send(p: &str) -> Mutex<Box<dyn Write + Send>> {
+    Mutex::new(Box::new(std::io::BufWriter::with_capacity(1 << 20, std::fs::File::create(p).expect("create output"))))
+}
+
+fn write_values(out: &Mutex<Box<dyn Write + Send>>, vs: &[Value]) {
+    if vs.is_empty() {
+        return;
+    }
+    let mut buf = Vec::new();
+    for v in vs {
+        buf.extend_from_slice(v.to_string().as_bytes());
+        buf.push(b'\n');
+    }
+    out.lock().unwrap().write_all(&buf).unwrap();
+}
+
 fn main() {
-    eprintln!("yv-g05: not implemented yet");
-    std::process::exit(2);
+    let args: Vec<String> = std::env::args().skip(1).collect();
+    let threads = opt_usize(&args, "--threads", 8).max(1);
+    util::quiet_panics();
+    match args.first().map(|s| s.as_str()) {
+        Some("replay") => {
+            let input = Mutex::new(std::io::BufReader::with_capacity(
+                1 << 20,
+                std::fs::File::open(opt(&args, "--in").expect("--in")).expect("open --in"),
+            ));
+            let out = open_out_send(opt(&args, "--out").expect("--out"));
+            let sample = open_out_send(opt(&args, "--sample").expect("--sample"));
+            let total = Mutex::new(Stats::default());
+            std::thread::scope(|s| {
+                for _ in 0..threads {
+                    s.spawn(|| {
+                        util::quiet_panics();
+                        let mut st = Stats::default();
+                        loop {
+                            let mut batch: Vec<String> = Vec::new();
+                            {
+                                let mut r = input.lock().unwrap();
+                                for _ in 0..32 {
+                                    let mut l = String::new();
+                                    if r.read_line(&mut l).expect("read --in") == 0 {
+                                        break;
+                                    }
+                                    if !l.trim().is_empty() {
+                                        batch.push(l);
+                                    }
+                                }
+                            }
+                            if batch.is_empty() {
+                                break;
+                            }
+                            let mut mism = Vec::new();
+                            let mut smp = Vec::new();
+                            for l in &batch {
+                                let g: Value = serde_json::from_str(l).expect("json line of Gen_ReadBuiltin");
+                                mism.extend(replay_line(&g, &mut st, &mut smp));
+                            }
+                            write_values(&out, &mism);
+                            write_values(&sample, &smp);
+                        }
+                        total.lock().unwrap().merge(st);
+                    });
+                }
+            });
+            out.lock().unwrap().flush().unwrap();
+            sample.lock().unwrap().flush().unwrap();
+            println!("{}", total.into_inner().unwrap().json());
+        }
+        Some("random") => {
+            let n = opt_usize(&args, "--n", 1000);
+            let mut rng = StdRng::seed_from_u64(util::seed().wrapping_mul(0x9e37_79b9).wrapping_add(505));
+            let items: Vec<Scen> = (0..n).map(|_| random_scen(&mut rng)).collect();
+            let out = open_out_send(opt(&args, "--out").expect("--out"));
+            let next = std::sync::atomic::AtomicUsize::new(0);
+            let total = Mutex::new(Stats::default());
+            // records are written in scenario order per block; order does not matter to the validation
+            std::thread::scope(|s| {
+                for _ in 0..threads {
+                    s.spawn(|| {
+                        util::quiet_panics();
+                        let mut st = Stats::default();
+                        loop {
+                            let i = next.fetch_add(64, std::sync::atomic::Ordering::Relaxed);
+                            if i >= items.len() {
+                                break;
+                            }
+                            let recs: Vec<Value> =
+                                items[i..(i + 64).min(items.len())].iter().map(|sc| record_of(sc, &mut st)).collect();
+                            write_values(&out, &recs);
+                        }
+                        total.lock().unwrap().merge(st);
+                    });
+                }
+            });
+            out.lock().unwrap().flush().unwrap();
+            println!("{}", total.into_inner().unwrap().json());
+        }
+        Some("one") => {
+            let p = opt(&args, "--in").expect("--in");
+            let v: Value = serde_json::from_str(&std::fs::read_to_string(p).expect("read --in")).expect("json");
+            let sc = scen_from_json(if v.get("rec").is_some() { &v["rec"] } else { &v });
+            let mut st = Stats::default();
+            let rec = record_of(&sc, &mut st);
+            let mut out = util::open_out(&args);
+            writeln!(out, "{rec}").unwrap();
+            if args.iter().any(|a| a == "--show") {
+                eprintln!("{}", run::script_of(std::slice::from_ref(&sc.case), &sc.toks));
+                eprintln!("{rec}");
+            }
+        }
+        _ => {
+            eprintln!("usage: yv-g05 replay|random|one ...");
+            std::process::exit(2);
+        }
+    }
 }
